@@ -201,4 +201,42 @@ Example nv_failed_gone :
   recover (fst (exec (sys_after w1_evs) w1_st)) = recover (sys_after w1_evs).
 Proof. split; [vm_compute; reflexivity | eapply C14_failed_gone_after_crash; vm_compute; reflexivity]. Qed.
 
-(* C14_partial_prefix: added by the refinement engineer, see Proofs/Refine*.v *)
+
+
+(* ---- what a failing statement leaves behind is a row-operation prefix of it ----
+   For every state reachable by a statement history (failing statements of any kind allowed in
+   the history) and every failing INSERT / UPDATE / DELETE / CREATE TABLE: the store after the
+   failure represents (Proofs/RefineRep.v `Rep`: catalog invariant + every table's live cells
+   are the canonical encodings of the specification's rows, in order) either the database as it
+   was or one of TableSpec.stmt_prefixes - rows 1..i of the INSERT applied, the first j matching
+   rows of the UPDATE / DELETE rewritten / removed, the table registered with its first i
+   columns. Hypotheses (boolean, on the history and the statement): column names of CREATE TABLE
+   pairwise distinct, literals are Go values (ev_ok / stmt_ok), data file below 2^63 bytes.
+   Remark on the specification: stmt_prefixes d (SInsert n ..) is EMPTY when table n does not
+   exist (it should contain d), hence the explicit `d' = d` alternative. *)
+From Coq Require Import Lia.
+From Mkdb Require Import Proofs.RefineRep Proofs.RefineCat Proofs.RefineMain Proofs.RefineFail Proofs.RefineDDL.
+
+Theorem C14_partial_prefix : forall evs y os st e,
+  C14_stmts_only evs = true -> run_events init_sys evs = (SOk y, os) ->
+  forallb ev_ok evs = true -> stmt_ok st = true ->
+  e_out (run_stmt (mem y) st) = OErr e ->
+  N.leb (nextFree (e_store (run_stmt (mem y) st))) OFFMAX = true ->
+  exists d d',
+    In d (lax_dbs [[]] evs os) /\ Rep (mem y) d /\
+    (d' = d \/ In d' (stmt_prefixes d st)) /\ Rep (e_store (run_stmt (mem y) st)) d'.
+Proof.
+  intros evs y os st e Hso Hrun Hok Hst Hout Hmax. apply N.leb_le in Hmax.
+  pose proof (run_stmt_free_mono (mem y) st) as Hmono.
+  destruct (run_events_lax evs init_sys [] [[]] y os Rep_init (or_introl eq_refl) Hso Hok Hrun ltac:(lia)) as (d & Hd & HR).
+  destruct (run_stmt_err_rep (mem y) d st e HR Hst Hmax Hout) as (d' & Hd' & HR').
+  exists d, d'. auto.
+Qed.
+Print Assumptions C14_partial_prefix.
+
+(* non-vacuity: the three recorded witnesses are instances (the prefix left behind is row 1 /
+   the first updated row / the table with its first column) *)
+Example nv_prefix_hyps :
+  forallb ev_ok w1_evs = true /\ stmt_ok w1_st = true /\
+  N.leb (nextFree (e_store (run_stmt (mem (sys_after w1_evs)) w1_st))) OFFMAX = true.
+Proof. split; [|split]; vm_compute; reflexivity. Qed.
